@@ -456,6 +456,7 @@ fn do_alloc(mid: usize, req: AllocReq) -> Option<(u64, usize)> {
             w.satb_new.insert(id);
         }
         *w.counters.entry(format!("alloc_in_{}", got_space)).or_insert(0) += 1;
+        w.note(format!("m{} allocated object {} at {:#x} size {} in {}", mid, id, raw, size, got_space));
     });
     Some((id, raw))
 }
